@@ -48,7 +48,7 @@ func TestC07Guard(t *testing.T) {
 	script := []Op{
 		{K: "tree", M: mAuthor, A: 3, B: 4, V: 31},
 		{K: "create", M: mAuthor, A: 5, B: 2, V: 1},
-		{K: "batch", M: mGadget, A: 3, V: 1},
+		{K: "batch", M: mGadget, A: 1, V: 0},
 		{K: "create", M: mWidget, A: 3, V: 3},
 		{K: "save", M: mTag, A: 4, V: 2},
 		{K: "find", M: mAuthor},
@@ -85,7 +85,7 @@ func TestC07Guard(t *testing.T) {
 		{K: "tree", M: mDepot, A: 3, B: 4, V: 2},
 		{K: "tree", M: mSorter, A: 5, B: 5, V: 3},
 		{K: "create", M: mParcel, A: 6, V: 6},
-		{K: "batch", M: mCourier, A: 3, V: 1},
+		{K: "batch", M: mCourier, A: 1, V: 0},
 		{K: "preload", M: mDepot, R: "Parcels"},
 		{K: "preload", M: mSorter, R: "Parcel"},
 		{K: "joins", M: mSorter, R: "Parcel"},
@@ -133,6 +133,10 @@ func TestC07Guard(t *testing.T) {
 		{K: "query", M: mGadget, A: 1, V: 0},
 		{K: "query", M: mGadget, V: 1},
 		{K: "query", M: mGadget, V: 2},
+		{K: "query", M: mBook, A: 1, V: 3},
+		{K: "find", M: mTag, V: 2},
+		{K: "updates", M: mTag, A: 1, V: 3},
+		{K: "batch", M: mSorter, A: 5, V: 1},
 		{K: "set", M: mGadget, V: 3},
 		{K: "onconflict", M: mTag, A: 1, V: 0},
 		{K: "onconflict", M: mTag, A: 1, V: 1},
